@@ -13,6 +13,7 @@ CONSTANTS
  Depth = 2
  Rich = FALSE
  Many = FALSE
+ Foreign = FALSE
  Cfg <- MCfg
  Reqs <- MReqs
  InitVals = "zero"
